@@ -382,6 +382,83 @@ func bitsUnderFacts(o core.AOutcome, v core.AVal) core.AVal {
 	return core.AVal{K: core.AInt, Bits: out}
 }
 
+// feasibleOctets: the values 0..255 of the source src that satisfy every fact and exclusion the path
+// has recorded about src or one of its bit fields.
+func feasibleOctets(o core.AOutcome, src string) []uint64 {
+	type fld struct {
+		hi, lo int
+		f      [2]uint64
+	}
+	var flds []fld
+	for k, f := range o.Facts {
+		if k == src {
+			flds = append(flds, fld{63, 0, f})
+			continue
+		}
+		if strings.HasPrefix(k, src+"<") && strings.HasSuffix(k, ">") {
+			var h, l int
+			if n, _ := fmt.Sscanf(k[len(src):], "<%d:%d>", &h, &l); n == 2 {
+				flds = append(flds, fld{h, l, f})
+			}
+		}
+	}
+	var out []uint64
+	for v := uint64(0); v < 256; v++ {
+		ok := true
+		for _, f := range flds {
+			x := v >> uint(f.lo)
+			if w := f.hi - f.lo + 1; w < 64 {
+				x &= uint64(1)<<uint(w) - 1
+			}
+			if x < f.f[0] || x > f.f[1] {
+				ok = false
+			}
+		}
+		for k, ex := range o.Excl {
+			if k == src {
+				for _, e := range ex {
+					if uint64(e) == v {
+						ok = false
+					}
+				}
+			} else if strings.HasPrefix(k, src+"<") {
+				var h, l int
+				if n, _ := fmt.Sscanf(k[len(src):], "<%d:%d>", &h, &l); n == 2 {
+					x := (v >> uint(l)) & (uint64(1)<<uint(h-l+1) - 1)
+					for _, e := range ex {
+						if uint64(e) == x {
+							ok = false
+						}
+					}
+				}
+			}
+		}
+		if ok {
+			out = append(out, v)
+		}
+	}
+	return out
+}
+
+// pinBit replaces bit idx of source src in v by the constant the path has settled it to.
+func pinBit(v core.AVal, src string, idx int, val uint64) core.AVal {
+	if v.K != core.AInt {
+		return v
+	}
+	out := make(core.BitVec, len(v.Bits))
+	for i, b := range v.Bits {
+		out[i] = b
+		if b.Kind == core.BSrc && b.More == "" && !b.Neg && b.Src == src && b.Idx == idx {
+			if val == 0 {
+				out[i] = core.Bit{Kind: core.BZero}
+			} else {
+				out[i] = core.Bit{Kind: core.BOne}
+			}
+		}
+	}
+	return core.AVal{K: core.AInt, Bits: out}
+}
+
 func r4lenX(c *core.Ctx) {
 	const R = "R4.len"
 	c.Rule(R, "parseLength accepts the X.691 10.9 forms: bit 8 clear → 7-bit value; bits 10 → 14-bit big-endian value over two octets; 11 → 1..4 fragments of 16384")
@@ -398,10 +475,38 @@ func r4lenX(c *core.Ctx) {
 			continue
 		}
 		first := r.reads[0]
-		// which form is this path? read off the facts on the two top bits of the first octet
-		b7lo, b7hi := factRange(r.o, first+"<7:7>", 1)
-		b6lo, b6hi := factRange(r.o, first+"<6:6>", 1)
+		// which form is this path? the values of the first octet the path's facts leave possible say
+		// which of the two top bits are settled (however the code tests them: masks, a shift, a range)
+		vals := feasibleOctets(r.o, first)
+		top := map[uint64]bool{}
+		for _, x := range vals {
+			top[x>>6] = true
+		}
+		b7lo, b7hi, b6lo, b6hi := uint64(1), uint64(0), uint64(1), uint64(0)
+		for t := range top {
+			if t>>1 < b7lo {
+				b7lo = t >> 1
+			}
+			if t>>1 > b7hi {
+				b7hi = t >> 1
+			}
+			if t&1 < b6lo {
+				b6lo = t & 1
+			}
+			if t&1 > b6hi {
+				b6hi = t & 1
+			}
+		}
+		if len(vals) == 0 {
+			continue // no octet takes this path
+		}
 		v := bitsUnderFacts(r.o, r.o.Ret[0])
+		if b7lo == b7hi {
+			v = pinBit(v, first, 7, b7lo)
+		}
+		if b7lo == 1 && b6lo == b6hi {
+			v = pinBit(v, first, 6, b6lo)
+		}
 		switch {
 		case b7hi == 0: // 0nnnnnnn
 			if r.isErr {
@@ -422,7 +527,15 @@ func r4lenX(c *core.Ctx) {
 				detail = "long form yields " + v.String()
 			}
 		case b7lo == 1 && b6lo == 1: // 11mmmmmm
-			mlo, mhi := factRange(r.o, first+"<5:0>", 6)
+			mlo, mhi := uint64(63), uint64(0)
+			for _, x := range vals {
+				if x&63 < mlo {
+					mlo = x & 63
+				}
+				if x&63 > mhi {
+					mhi = x & 63
+				}
+			}
 			if r.isErr {
 				// refusals must cover exactly m = 0 and m > 4
 				if !(mhi == 0 || mlo >= 5) {
